@@ -83,7 +83,9 @@ def gen_graph(rng, gid):
     if rng.random() < 0.3:
         rng.shuffle(classes)  # declaration order must not matter
     subjects = names + (["TopEnum"] if top_enums else []) + ["Nope"]
+    # the descriptions reach the module in one extend() call or in several (one metatypes file after the other)
     return {"id": "g%d" % gid, "style": style, "classes": classes, "enums": top_enums, "subjects": subjects,
+            "batches": rng.choice((1, 1, 2, 3, len(classes))),
             "property_names": PROP_POOL + ["absent"], "method_names": METH_POOL + ["absent"],
             "type_names": ENUM_POOL + ["Absent"], "variant_names": VAR_POOL + ["VX"]}
 
@@ -141,7 +143,7 @@ def gen_modules_graph(rng, gid):
             if sum(1 for (mi, nn) in nodes if mi in clo and nn == n) != 1:
                 return None
     subjects = ["m%d/%s" % key for key in nodes]
-    return {"id": "g%d" % gid, "style": "modules", "classes": [], "enums": [],
+    return {"id": "g%d" % gid, "style": "modules", "classes": [], "enums": [], "batches": rng.choice((1, 2, 3)),
             "modules": [{"name": m["name"], "imports": ["m%d" % j for j in m["imports"]], "classes": m["classes"]} for m in mods],
             "subjects": subjects, "property_names": ["q_m%d_%s" % key for key in nodes],
             "method_names": [], "type_names": [], "variant_names": [], "resolve_names": pool + ["Absent"],
@@ -421,5 +423,7 @@ def run(tier, seed, replay=None):
              "dangling / non-class super names); all subject pairs and all pool names queried; distinct = distinct edge "
              "relation with >= 3 classes and >= 1 edge",
         samples=samples, graphs=len(jobs), graph_styles=styles, queries_by_kind=stats,
+        graphs_by_extend_batches={str(k): sum(1 for j in jobs if min(j.get("batches", 1), max(1, len(j["classes"]) or 3)) == k)
+                                  for k in sorted({min(j.get("batches", 1), max(1, len(j["classes"]) or 3)) for j in jobs})},
         max_query_cpu_ms=round(max_cpu, 3), cpu_budget_ms=common.CPU_BUDGET_S * 1000, floor=20,
     )
